@@ -176,6 +176,7 @@ func (s *Server) serve(ctx context.Context, listener net.Listener, handler Modbu
 
 		select {
 		case <-ctx.Done():
+			_ = netConn.Close() // accepted but will never be served. do not leave it open
 			return ErrServerClosed
 		default:
 		}
@@ -189,7 +190,12 @@ func (s *Server) serve(ctx context.Context, listener net.Listener, handler Modbu
 			readTimeout:    s.ReadTimeout,
 			onErrorFunc:    onErrorFunc,
 		}
-		s.trackConn(c, true)
+		if !s.trackConn(c, true) {
+			// connection was accepted just before Shutdown closed the listener. Shutdown has already decided which
+			// connections to close, so this one would stay open (and be served) after Shutdown has returned.
+			_ = netConn.Close()
+			return ErrServerClosed
+		}
 		go func(ctx context.Context, conn *connection) {
 			defer func() {
 				if rec := recover(); rec != nil {
@@ -223,7 +229,9 @@ func (oc *onceCloseListener) close() {
 	oc.closeErr = oc.Listener.Close()
 }
 
-func (s *Server) trackConn(c *connection, isAdd bool) {
+// trackConn adds or removes connection from active connections. Returns false when connection can not be added
+// because server is (being) shut down
+func (s *Server) trackConn(c *connection, isAdd bool) bool {
 	// this is how http.Server does it
 	s.mu.Lock()
 	defer s.mu.Unlock()
@@ -232,12 +240,16 @@ func (s *Server) trackConn(c *connection, isAdd bool) {
 		s.activeConnections = make(map[*connection]struct{})
 	}
 	if isAdd {
+		if s.isShutdown.Load() {
+			return false
+		}
 		s.activeConnections[c] = struct{}{}
 		s.activeConnectionCount.Add(1)
 	} else {
 		delete(s.activeConnections, c)
 		s.activeConnectionCount.Add(-1)
 	}
+	return true
 }
 
 func (c *connection) handle(ctx context.Context) {
